@@ -58,6 +58,41 @@ fn fs_handler(op: vh::FsOp, p: &Path) -> vh::FsVerdict {
     vh::FsVerdict::Proceed
 }
 
+// ---------------------------------------------------------------- background cleanup threads
+// schedule points: a request is sent / a request has been worked off / a cleanup thread has ended
+use std::sync::atomic::{AtomicUsize, Ordering};
+static CL_SENT: AtomicUsize = AtomicUsize::new(0);
+static CL_DONE: AtomicUsize = AtomicUsize::new(0);
+static CL_EXIT: AtomicUsize = AtomicUsize::new(0);
+pub fn install_sched() {
+    vh::set_sched_handler(Some(Box::new(|name: &'static str| match name {
+        "cleanup_send" => {
+            CL_SENT.fetch_add(1, Ordering::SeqCst);
+        }
+        "cleanup_done" => {
+            CL_DONE.fetch_add(1, Ordering::SeqCst);
+        }
+        "cleanup_exit" => {
+            CL_EXIT.fetch_add(1, Ordering::SeqCst);
+        }
+        _ => {}
+    })));
+}
+/// Lets the background cleanup thread finish what it was asked to do (or notice that it has ended).
+fn settle_cleanup(exits_before: usize) {
+    let t0 = std::time::Instant::now();
+    while CL_DONE.load(Ordering::SeqCst) < CL_SENT.load(Ordering::SeqCst)
+        && CL_EXIT.load(Ordering::SeqCst) == exits_before
+        && t0.elapsed() < std::time::Duration::from_secs(3)
+    {
+        std::thread::sleep(std::time::Duration::from_micros(200));
+    }
+    if CL_EXIT.load(Ordering::SeqCst) != exits_before {
+        // the thread is gone: nothing more will be worked off
+        CL_DONE.store(CL_SENT.load(Ordering::SeqCst), Ordering::SeqCst);
+    }
+}
+
 // ---------------------------------------------------------------- configuration
 pub struct Cfg {
     pub spec_parts: (Vec<u8>, Option<Vec<u8>>, bool, Option<Vec<u8>>),
@@ -230,6 +265,9 @@ pub fn run_case(id: &str, toks: &[&str]) -> String {
     let mut errs: Vec<String> = vec![];
     let mut live: Option<Live> = None;
     let mut out: Vec<String> = vec![];
+    install_sched();
+    CL_DONE.store(CL_SENT.load(Ordering::SeqCst), Ordering::SeqCst);
+    let mut exits = CL_EXIT.load(Ordering::SeqCst);
     for tok in ops {
         if tok.is_empty() {
             continue;
@@ -391,6 +429,8 @@ pub fn run_case(id: &str, toks: &[&str]) -> String {
             }
             other => panic!("unknown op {other}"),
         };
+        settle_cleanup(exits);
+        exits = CL_EXIT.load(Ordering::SeqCst);
         errs.extend(take_errors());
         scan_dir(&dir);
         out.push(o);
